@@ -1,1 +1,150 @@
-//! Serde-friendly mirror types for replay files.
+//! Serde-friendly mirror of `Message` for replay files, and the table-driven reference classification.
+
+use flipdot_core::{Address, ChunkCount, Data, Frame, Message, MsgType, Offset};
+use serde::{Deserialize, Serialize};
+
+use crate::oracle::table::{self, OPS, STATES};
+
+#[derive(Serialize, Deserialize, Debug, Clone, PartialEq, Eq, Hash)]
+pub enum M {
+    Data { off: u16, data: Vec<u8> },
+    Count(u16),
+    Hello(u16),
+    Query(u16),
+    Goodbye(u16),
+    /// address, index into table::STATES
+    Report(u16, u8),
+    /// address, index into table::OPS
+    Req(u16, u8),
+    Ack(u16, u8),
+    PixelsComplete(u16),
+    Unknown { addr: u16, ty: u8, data: Vec<u8> },
+}
+
+impl M {
+    pub fn to_message(&self) -> Message<'static> {
+        match self {
+            M::Data { off, data } => Message::SendData(Offset(*off), Data::try_new(data.clone()).expect("<=255")),
+            M::Count(n) => Message::DataChunksSent(ChunkCount(*n)),
+            M::Hello(a) => Message::Hello(Address(*a)),
+            M::Query(a) => Message::QueryState(Address(*a)),
+            M::Goodbye(a) => Message::Goodbye(Address(*a)),
+            M::Report(a, s) => Message::ReportState(Address(*a), STATES[*s as usize].0),
+            M::Req(a, o) => Message::RequestOperation(Address(*a), OPS[*o as usize].0),
+            M::Ack(a, o) => Message::AckOperation(Address(*a), OPS[*o as usize].0),
+            M::PixelsComplete(a) => Message::PixelsComplete(Address(*a)),
+            M::Unknown { addr, ty, data } => Message::Unknown(Frame::new(
+                Address(*addr),
+                MsgType(*ty),
+                Data::try_new(data.clone()).expect("<=255"),
+            )),
+        }
+    }
+
+    pub fn from_message(m: &Message<'_>) -> M {
+        match m {
+            Message::SendData(o, d) => M::Data { off: o.0, data: d.get().to_vec() },
+            Message::DataChunksSent(c) => M::Count(c.0),
+            Message::Hello(a) => M::Hello(a.0),
+            Message::QueryState(a) => M::Query(a.0),
+            Message::Goodbye(a) => M::Goodbye(a.0),
+            Message::ReportState(a, s) => M::Report(a.0, table::state_index(*s)),
+            Message::RequestOperation(a, o) => M::Req(a.0, table::op_index(*o)),
+            Message::AckOperation(a, o) => M::Ack(a.0, table::op_index(*o)),
+            Message::PixelsComplete(a) => M::PixelsComplete(a.0),
+            Message::Unknown(f) => M::Unknown { addr: f.address().0, ty: f.message_type().0, data: f.data().to_vec() },
+            _ => M::Unknown { addr: 0xDEAD, ty: 0xEE, data: b"non-exhaustive variant".to_vec() },
+        }
+    }
+
+    pub fn is_unknown(&self) -> bool {
+        matches!(self, M::Unknown { .. })
+    }
+
+    /// The wire frame fields the *table* prescribes for this message (independent of `Frame::from(Message)`).
+    pub fn ref_frame(&self) -> (u16, u8, Vec<u8>) {
+        match self {
+            M::Data { off, data } => (*off, 0, data.clone()),
+            M::Count(n) => (*n, 1, vec![]),
+            M::Hello(a) => (*a, 2, vec![table::HELLO]),
+            M::Query(a) => (*a, 2, vec![table::QUERY]),
+            M::Goodbye(a) => (*a, 2, vec![table::GOODBYE]),
+            M::Report(a, s) => (*a, 4, vec![STATES[*s as usize].1]),
+            M::Req(a, o) => (*a, 3, vec![OPS[*o as usize].1]),
+            M::Ack(a, o) => (*a, 5, vec![OPS[*o as usize].2]),
+            M::PixelsComplete(a) => (*a, 6, vec![table::PIXELS_COMPLETE]),
+            M::Unknown { addr, ty, data } => (*addr, *ty, data.clone()),
+        }
+    }
+
+    pub fn short(&self) -> String {
+        match self {
+            M::Data { off, data } => format!("SendData({off:#x},{}B)", data.len()),
+            M::Count(n) => format!("DataChunksSent({n})"),
+            M::Hello(a) => format!("Hello({a:#x})"),
+            M::Query(a) => format!("QueryState({a:#x})"),
+            M::Goodbye(a) => format!("Goodbye({a:#x})"),
+            M::Report(a, s) => format!("ReportState({a:#x},{})", table::state_name(*s)),
+            M::Req(a, o) => format!("Request({a:#x},{})", table::op_name(*o)),
+            M::Ack(a, o) => format!("Ack({a:#x},{})", table::op_name(*o)),
+            M::PixelsComplete(a) => format!("PixelsComplete({a:#x})"),
+            M::Unknown { addr, ty, data } => format!("Unknown(addr={addr:#x},type={ty},{}B)", data.len()),
+        }
+    }
+}
+
+/// What the protocol table says a frame (address, type, data) is.
+pub fn ref_classify(addr: u16, ty: u8, data: &[u8]) -> M {
+    let unknown = || M::Unknown { addr, ty, data: data.to_vec() };
+    if ty == 0 {
+        return M::Data { off: addr, data: data.to_vec() };
+    }
+    if ty == 1 {
+        return if data.is_empty() { M::Count(addr) } else { unknown() };
+    }
+    if data.len() != 1 {
+        return unknown();
+    }
+    let b = data[0];
+    match ty {
+        2 => match b {
+            table::HELLO => M::Hello(addr),
+            table::QUERY => M::Query(addr),
+            table::GOODBYE => M::Goodbye(addr),
+            _ => unknown(),
+        },
+        3 => match OPS.iter().position(|(_, req, _)| *req == b) {
+            Some(i) => M::Req(addr, i as u8),
+            None => unknown(),
+        },
+        4 => match STATES.iter().position(|(_, code)| *code == b) {
+            Some(i) => M::Report(addr, i as u8),
+            None => unknown(),
+        },
+        5 => match OPS.iter().position(|(_, _, ack)| *ack == b) {
+            Some(i) => M::Ack(addr, i as u8),
+            None => unknown(),
+        },
+        6 => {
+            if b == table::PIXELS_COMPLETE {
+                M::PixelsComplete(addr)
+            } else {
+                unknown()
+            }
+        }
+        _ => unknown(),
+    }
+}
+
+/// All specific (non-Unknown) messages that carry the given address, excluding data chunks.
+pub fn all_addressed(addr: u16) -> Vec<M> {
+    let mut v = vec![M::Count(addr), M::Hello(addr), M::Query(addr), M::Goodbye(addr), M::PixelsComplete(addr)];
+    for s in 0..13u8 {
+        v.push(M::Report(addr, s));
+    }
+    for o in 0..6u8 {
+        v.push(M::Req(addr, o));
+        v.push(M::Ack(addr, o));
+    }
+    v
+}
